@@ -53,7 +53,6 @@ theorem lexGo_eof_allowed (g : Grammar) (d : Dec) :
         split at h
         · exact ih _ _ _ _ _ h
         · split at h
-          · cases h
           · exact ih _ _ _ _ _ h
           · split at h
             · exact ih _ _ _ _ _ h
